@@ -198,7 +198,14 @@ def r_drop_cfg_stmts(t):
                     j = _match_close(t, j) + 1
                 else:
                     depth = 0
+                    # `#[cfg(..)] field: expr,` inside a struct literal: the dropped text ends at the comma (or at the closing brace)
+                    field_mode = j + 1 < len(t) and t[j + 1] == ":" and t[j] not in ("let",)
                     while True:
+                        if field_mode and t[j] == ",":
+                            j += 1
+                            break
+                        if field_mode and t[j] in ("}", ")", "]"):
+                            break
                         if t[j] in OPEN:
                             j = _match_close(t, j) + 1
                             if t[j - 1] == "}" and (j >= len(t) or t[j] not in (".", "?", ";")):
